@@ -306,6 +306,10 @@ class MiniEval:
             i = self.ev(e.slice)
             if isinstance(v, Rec):
                 return Rec("item", v, i)
+            if isinstance(v, Sym):
+                if "__getitem__" in v.methods:
+                    return v.methods["__getitem__"](i)
+                raise AnalysisError(f"{self.where}: subscript of abstract object in `{u(e)}`")
             try:
                 return v[i]
             except (KeyError, IndexError, TypeError) as ex:
